@@ -12,6 +12,11 @@ SPEC = {
             "in int64 and as power-of-two scaled double/float replicas; every dominant matrix (random and structured) also inverted "
             "scaled by 2^s along a ladder -500..500 (dense at 44..70, 120..130, 140..155), with non-uniform row/column scalings, and as "
             "Matrix4<float>; double vectors with components k*2^s (exact dot/cross/scalar forms). "
+            "round 6: process environment at first use - forked children (the parent has made no random_* call yet) dup /dev/null until the "
+            "lowest free descriptor is 3-ish (normal), 1023, 1024, 1025, 4096, 16384, then make the FIRST random_* call of the process "
+            "(6 kinds: random_int tiny/63-bit span, random_data 1/4097 bytes/string, random_int on a fresh thread) and run the whole "
+            "random_int / random_data judgement with the fillers open and again after closing them; descriptors 0-2 closed before first "
+            "use is counted, not judged. "
             "distinct_nontrivial = distinct (helper, type, operand-shape) classes observed, e.g. gcd:u16:coprime, log2i:u64:bit47.",
     "stages": [
         {"name": "c20", "variant": "asan", "shards": (16, 16)},
@@ -22,9 +27,15 @@ SPEC = {
                          "random_data:>8192", "v2:*", "v3:*", "v4:*", "matrix:int:*", "matrix:dominant:*", "log2i:ulonglong:bit63", "log2i:longlong:bit62",
                          "vector2d:float:eq:*", "vector4d:float:*", "matrix:dominant:style3", "matrix:dominant:style4",
                          "random_data:signal-storm:32MiB",
+                         "random:fd:regime:normal", "random:fd:regime:fd1023", "random:fd:regime:fd1024", "random:fd:regime:fd1025",
+                         "random:fd:regime:fd4096", "random:fd:regime:fd16384", "random:fd:urandom-fd1024:first-random_int-*",
+                         "random:fd:urandom-fd1024:first-random_data-*", "random:fd:urandom-fd1023:*", "random:fd:urandom-fd4096..16383:*",
+                         "random:fd:stdio-closed:counted-not-judged",
                          "matrix:struct:masks:kinds0000", "matrix:struct:masks:kinds1111", "matrix:struct:masks:kinds2222",
                          "matrix:struct:masks-permuted:*", "matrix:struct:shared", "matrix:struct:special",
                          "matrix:dominant:structured:kind0:fill*", "matrix:dominant:structured:kind1:fill3",
                          "matrix:dominant:float:*", "vector3d:scaled:*", "v4:enumerated:*"],
-    "assumptions": ASSUME_COMMON + ["random_data 'every position rewritten' monitor has a 256^-8 per-position false-alarm probability"],
+    "assumptions": ASSUME_COMMON + ["random_data 'every position rewritten' monitor has a 256^-8 per-position false-alarm probability",
+                                    "the first-use regimes need RLIMIT_NOFILE (hard) >= 16448; a run under a lower limit lacks the required classes and is inconclusive",
+                                    "a process whose descriptors 0-2 are closed at first use (so /dev/urandom becomes descriptor 0) is outside the statement: counted only"],
 }
